@@ -196,8 +196,12 @@ func (cl *Client) WriteLoop() {
 		select {
 		case pk := <-cl.State.outbound:
 			if err := cl.WritePacket(*pk); err != nil {
-				// TODO : Figure out what to do with error
 				cl.ops.log.Debug("failed publishing packet", "error", err, "client", cl.ID, "packet", pk)
+				cl.Lock()
+				if len(cl.State.outbound) == 0 {
+					_ = cl.flushOutbuf() // what earlier writes buffered must not be stranded behind a failed write
+				}
+				cl.Unlock()
 			}
 			atomic.AddInt32(&cl.State.outboundQty, -1)
 		case <-cl.State.open.Done():
